@@ -37,8 +37,11 @@ PARTIAL = ['delta_l2_norm is compared through its square (sqrt is not modelled)'
 
 SGD = lambda lr, mom=None, nest=False: {'kind': 'sgd', 'lr': lr, 'mom': mom, 'nest': nest}
 ADAM = lambda lr: {'kind': 'adam', 'lr': lr}
+# as CLIENT optimizer Adam gets a large eps: with the default 1e-8 the update g/(|g|+eps) of a coordinate whose gradient
+# is zero up to rounding is +-lr depending on float noise, so no reference computation can agree with it
+ADAM_C = lambda lr: {'kind': 'adam', 'lr': lr, 'eps': 0.125}
 
-COPTS = [SGD(0.125), SGD(0.25, 0.5), SGD(0.125, 0.5, True), SGD(0.0625, 0.25), ADAM(0.05)]
+COPTS = [SGD(0.125), SGD(0.25, 0.5), SGD(0.125, 0.5, True), SGD(0.0625, 0.25), ADAM_C(0.05)]
 SOPTS = [SGD(1.0), SGD(0.5), SGD(1.0, 0.5), SGD(0.5, 0.5, True), ADAM(0.125), SGD(2.0)]
 HPS = [  # bs, epochs, steps, drop
     (2, 1, None, False), (3, 2, None, True), (4, None, 3, False), (1, 1, 2, False), (5, 1, None, False),
@@ -72,7 +75,7 @@ def _case(rng, copt, sopt, hp, sizes, nrounds, backend, noise):
 
 
 def generate(tier, rng):
-  n_cfg = {'quick': 80, 'thorough': 260, 'search': 400}[tier]
+  n_cfg = {'quick': 60, 'thorough': 260, 'search': 400}[tier]
   # fixed corner cases first: all-empty rounds, zero clients, drop_remainder with n < bs, every backend
   for b in BACKENDS:
     yield _case(rng, SGD(0.125), SGD(1.0), _hp(HPS[0], 1), [0, 0], 2, b, True)
@@ -81,7 +84,7 @@ def generate(tier, rng):
   yield _case(rng, SGD(0.125), SGD(0.5), _hp(HPS[5], 1), [0, 3, 0], 2, 'jit', True)
   yield _case(rng, SGD(0.125), SGD(1.0), _hp(HPS[8], 4), [2, 7, 4], 2, 'jit', False)
   yield _case(rng, SGD(0.125), ADAM(0.125), _hp(HPS[1], 4), [4, 0, 6], 3, 'jit', True)
-  yield _case(rng, ADAM(0.05), SGD(1.0), _hp(HPS[0], 4), [4, 0, 6], 2, 'jit', True)
+  yield _case(rng, ADAM_C(0.05), SGD(1.0), _hp(HPS[0], 4), [4, 0, 6], 2, 'jit', True)
   for i in range(n_cfg):
     copt = COPTS[i % len(COPTS)] if rng.random() < 0.7 else rng.choice(COPTS[:4])
     sopt = rng.choice(SOPTS)
@@ -94,6 +97,11 @@ def generate(tier, rng):
       base = _case(rng, copt, sopt, hp, sizes, rng.randint(1, 3), 'jit', noise)
       for b in (bks if j == 0 else [rng.choice(bks)]):
         yield dict(base, backend=b)
+  # federated_averaging is built many times per process from the SAME grad_fn object (fedsim.shared_grad) with different
+  # optimizers / hparams; re-run the first-built algorithm objects after all the others exist (hidden shared state)
+  for b in BACKENDS[:2]:
+    yield _case(rng, SGD(0.125), SGD(1.0), _hp(HPS[0], 1), [3, 1, 4], 2, b, True)
+    yield _case(rng, SGD(0.25, 0.5), SGD(1.0, 0.5), _hp(HPS[0], 2), [2, 6], 2, b, True)
 
 
 # ----------------------------------------------------------------------------
@@ -112,7 +120,7 @@ def _alg(case):
     if len(_ALGS) > 400:
       _ALGS.clear()
     rec = fs.Recorder(fs.make_optimizer(case['sopt']))
-    grad_fn = fedjax.grad(fs.per_example_loss(case['noise']))
+    grad_fn = fs.shared_grad(case['noise'])   # the SAME grad_fn object for every algorithm instance of the process
     backend = 'pmap' if case['backend'] == 'pmap3' else case['backend']
     with fec.for_each_client_backend(backend):
       alg = fed_avg.federated_averaging(grad_fn, fs.make_optimizer(case['copt']), rec.optimizer, fs.hparams(case['hp']))
